@@ -108,34 +108,22 @@ def r2_flag_carried(cx):
     ds = wb.calls(r"spmc::Sender::<.*>::send$")
     fs = wb.calls(r"mpsc::Sender::<.*WriteTask>::send$")
     ok = len(ds) == 1 and len(fs) == 1
+    msg = ""
     if ok:
-        s1, arms = c01._variant_arms(F, wb, r"creator::Compression$")
-        ok = s1 is not None
-        if ok:
-            none_arm = arms.get("None", None)
-            t1 = wb.term(s1)
-            other = t1["otherwise"] if none_arm is not None else None
-            # None arm: never dispatch
-            r_none = wb.reachable(none_arm, avoid={s1}) if none_arm is not None else set()
-            # we need path-sensitivity on the computed bool: evaluate with the restricted successor function
-            import c05 as _c05
-            def reach_with(assume_none, flagval):
-                env = {3: flagval}
-                succ = _c05.restricted_succ(wb, {}, env)
-                # restrict the compression switch
-                succ[s1] = [none_arm] if assume_none else [x for x in wb.succ[s1] if x != none_arm]
-                # should_compress local: assigned const false on the None arm, = flag otherwise: constant-propagate
-                return succ
-            verdict = {}
-            for assume_none in (True, False):
-                for flagval in (True, False):
-                    succ = reach_with(assume_none, flagval)
-                    # propagate the boolean `should_compress`
-                    sc = _bool_after(wb, succ, assume_none, flagval)
-                    verdict[(assume_none, flagval)] = sc
-            ok = verdict == {(True, True): "fusion", (True, False): "fusion", (False, True): "dispatch", (False, False): "fusion"}
-            msg = "routing table (no-compression?, flag) -> %s" % verdict
-    cx.ob("R2", "R2/write_cluster-dispatch", ok, w, "ClusterWriterProxy::write_cluster sends to the compressors iff the pack compresses and the flag is set, to the raw writer otherwise; %s" % (msg if ok or 'msg' in dir() else ""))
+        en = [e for e in F.enums if re.search(r"creator::Compression$", e["path"])]
+        if len(en) != 1:
+            raise AnchorLost("enum creator::Compression")
+        verdict = {}
+        # path-sensitive constant propagation under (configured compression, flag): which channel is reachable
+        for v in en[0]["variants"]:
+            for flagval in (True, False):
+                r, _ = wb.explore(assume_locals={3: flagval}, assume_discr={r"creator::Compression$": v["discr"]}, avoid=wb.error_blocks())
+                to_c, to_w = ds[0][0] in r, fs[0][0] in r
+                verdict[(v["name"], flagval)] = "dispatch" if to_c and not to_w else ("fusion" if to_w and not to_c else ("both" if to_c else "none"))
+        want = {(v["name"], fl): ("dispatch" if (v["name"] != "None" and fl) else "fusion") for v in en[0]["variants"] for fl in (True, False)}
+        ok = verdict == want
+        msg = "routing table (configured compression, flag) -> %s" % {"%s/%s" % k: v for k, v in sorted(verdict.items())}
+    cx.ob("R2", "R2/write_cluster-dispatch", ok, w, "ClusterWriterProxy::write_cluster sends to the compressors iff the pack compresses and the flag is set, to the raw writer otherwise; %s" % msg)
     # finalize: raw slot false, compressed slot true
     fz = F.one(impl_self="ContentPackCreator", item="finalize", closure=False)
     zb = F.body(fz)
@@ -290,18 +278,51 @@ def r4_dedup(cx):
     gb = F.body(g)
     cc = gb.calls(r"CachedContentAdder::<.*>::cache_content$")
     fin = gb.calls(r"blake3::Hasher::finalize$")
+    one = gb.calls(r"^blake3::hash$")
     upd = gb.calls(r"blake3::Hasher::update$")
     updr = gb.calls(r"blake3::Hasher::update_reader")
     rte = gb.calls(r"Read>::read_to_end$")
-    rw = gb.calls(r"Seek>::rewind$")
-    ok = len(cc) == 2 and len(fin) == 2 and len(upd) == 1 and len(updr) == 1 and len(rte) == 1 and len(rw) == 1
-    if ok:
-        ok = all(any(x[0] == "call" and x[1] in {i for i, _ in fin} for x in gb.origins(t["args"][1])) for _, t in cc)
-        ok = ok and gb.dominates(rte[0][0], upd[0][0]) and gb.dominates(updr[0][0], rw[0][0])
-        # the reader path: rewind dominates its cache_content call
-        big = [i for i, t in cc if gb.dominates(updr[0][0], i)]
-        ok = ok and len(big) == 1 and gb.dominates(rw[0][0], big[0])
-    cx.ob("R4", "R4/key-is-hash-of-whole-content", ok, g, "the cache key is the finalised Blake3 of the whole content (read_to_end + update, or update_reader then rewind before the content is handed on)")
+    rw = gb.calls(r"Seek>::rewind$", r"Seek>::seek$")
+    ok = len(cc) >= 1
+    why = []
+
+    def whole_reader(t):
+        # the bytes come from the content handed in (parameter 2), not from a length-limited adapter of it
+        o = gb.origins(t["args"][0] if not call_is(t, r"update_reader") else t["args"][1])
+        lim = [callee_str(gb.term(x[1])) for x in o if x[0] == "call" and re.search(r"::take(::<.*>)?$|::Take<|::chain|::by_ref", callee_str(gb.term(x[1])))]
+        return ("param", 2) in o and not [x for x in lim if "take" in x.lower()]
+
+    def fresh_hasher(t):
+        o = gb.origins(t["args"][0])
+        return any(x[0] == "call" and call_is(gb.term(x[1]), r"blake3::Hasher::new$") for x in o) and ("param", 1) not in o
+
+    good_r = [i for i, t in rte if whole_reader(t)]
+    feed = set()
+    for i, t in upd:       # buffer filled by read_to_end of the whole reader, then hashed
+        if fresh_hasher(t) and any(gb.dominates(r, i) for r in good_r):
+            feed.add(i)
+    for i, t in one:       # one-shot hash of that buffer
+        if any(gb.dominates(r, i) for r in good_r):
+            feed.add(i)
+    for i, t in rw:        # streamed: update_reader(whole reader) then the reader is put back at its start
+        if any(gb.dominates(u, i) and fresh_hasher(ut) and whole_reader(ut) for u, ut in updr) and whole_reader(t):
+            feed.add(i)
+    for i, t in cc:
+        ko = gb.origins(t["args"][1])
+        ks = [x[1] for x in ko if x[0] == "call" and (x[1] in {j for j, _ in fin} or x[1] in {j for j, _ in one})]
+        if not ks:
+            ok = False
+            why.append("the key at line %s is not a Blake3 digest" % t.get("ln"))
+        for k in ks:
+            kt = gb.term(k)
+            if call_is(kt, r"Hasher::finalize$") and not fresh_hasher(kt):
+                ok = False
+                why.append("the hasher finalised at line %s is not created by Hasher::new() in this call" % kt.get("ln"))
+        if not gb.set_dominates(feed, i, avoid=gb.error_blocks()):
+            ok = False
+            why.append("a path reaches cache_content (line %s) without having hashed the whole content (read_to_end of the content + update/hash, or update_reader(content) + rewind)" % t.get("ln"))
+    msg = "; ".join(why) or "ok"
+    cx.ob("R4", "R4/key-is-hash-of-whole-content", ok, g, "the cache key is the finalised Blake3 of the whole content (read_to_end + update, or update_reader then rewind before the content is handed on): %s" % msg)
 
 
 # without any compression feature the Compression enum has a single variant: the compressed path does not exist
